@@ -8,6 +8,7 @@ package main
 //    created in the same function (go/types), emitted as a Coq list with the obligation "= []".
 
 import (
+	"time"
 	"encoding/json"
 	"fmt"
 	"go/ast"
@@ -262,6 +263,43 @@ func c14Isolation() []string {
 		}
 		if v, err := run(e, "import(\"strings\").ToLower(\"A\")"); err != nil || v != "a" {
 			problems = append(problems, fmt.Sprintf("a member replaced through one import expression is replaced for another import: %v %v", v, err))
+		}
+	}
+	// runs that are deep in their own recursion at the same moment do not draw on anything common: one tree, six fresh
+	// environments, every run waits at the bottom of its recursion until all have arrived
+	if tree, err := ankoparser.ParseSrc("func down(n) { if n == 0 { arrive(); return 0 }; return 1 + down(n - 1) }; down(2500)"); err == nil {
+		const k = 6
+		var barrier sync.WaitGroup
+		barrier.Add(k)
+		arrived := make(chan struct{})
+		go func() { barrier.Wait(); close(arrived) }()
+		outs := make([]string, k)
+		var wg sync.WaitGroup
+		for g := 0; g < k; g++ {
+			wg.Add(1)
+			go func(g int) {
+				defer wg.Done()
+				e := env.NewEnv()
+				e.Define("arrive", func() {
+					barrier.Done()
+					select {
+					case <-arrived:
+					case <-time.After(20 * time.Second):
+					}
+				})
+				v, err := vm.Run(e, nil, tree)
+				outs[g] = fmt.Sprint(v, " ", err)
+				if err != nil { // a run that never reached the bottom must not hold the others up
+					defer func() { recover() }()
+					barrier.Done()
+				}
+			}(g)
+		}
+		wg.Wait()
+		for g, o := range outs {
+			if o != "2500 <nil>" {
+				problems = append(problems, fmt.Sprintf("six runs of one tree, each 2500 calls deep at the same moment on its own fresh environment: run %d yields %s, alone it yields 2500", g, o))
+			}
 		}
 	}
 	if fp := packagesFingerprint(); fp != fp0 {
@@ -637,6 +675,11 @@ func pkgStateWrites(repo, rel string) ([]string, error) {
 					}
 				case *ast.IncDecStmt:
 					note(s.X, "incdec")
+				case *ast.UnaryExpr:
+					// &pkgVar handed on (sync/atomic functions, helper functions that store through the pointer)
+					if s.Op == token.AND {
+						note(s.X, "takes the address of")
+					}
 				case *ast.CallExpr:
 					if sel, ok := s.Fun.(*ast.SelectorExpr); ok {
 						if tv, ok := info.Types[sel.X]; ok && tv.Type != nil {
